@@ -6,7 +6,7 @@ import math
 import z3
 
 from . import engine as E
-from .absmap import key_pp, key_ps, key_ss, pname
+from .absmap import key_pp, key_ps, key_ss, pname, t_of
 from .matchlib import TOL, LOG09, LOG05, LOG099
 
 BIGTOL = z3.Q(1, 10 ** 8)
@@ -57,12 +57,12 @@ class PathModel:
             o = f"o{obs}"
             if isinstance(state, tuple):
                 k = key_ps(o, f"n{state[0]}", f"n{state[1]}")
-                return mp.q(k), "proj:" + k, o, mp.t(k).t
+                return mp.q(k), "proj:" + k, o, E.lift(t_of(mp, k, f"n{state[0]}", f"n{state[1]}"))
             return mp.q(key_pp(o, f"n{state}")), f"n{state}", o, z3.RealVal(0)
         o1, o2 = f"o{obs}", f"o{obs + 1}"
         if isinstance(state, tuple):
             k = key_ss(f"n{state[0]}", f"n{state[1]}", o1, o2)
-            return mp.q(k), "pf:" + k, "pt:" + k, mp.t("f:" + k).t
+            return mp.q(k), "pf:" + k, "pt:" + k, E.lift(t_of(mp, "f:" + k, f"n{state[0]}", f"n{state[1]}"))
         k = key_ps(f"n{state}", o1, o2)
         return mp.q(k), f"n{state}", "proj:" + k, z3.RealVal(0)
 
